@@ -187,7 +187,15 @@ struct CliWorld : World {
                 Op o; o.name = "sum"; o.a = a; pl.ops.push_back(o);
             } else if (c < 97) {
                 // write a checksum list for the current files, optionally spoil something, then check it
-                pl.add("chk", {(int64_t)r.below(4), (int64_t)(1 + r.below(7)), (int64_t)r.below(8), (int64_t)(r.next() >> 1)});
+                {
+                    std::vector<int64_t> a = {(int64_t)r.below(4), (int64_t)(1 + r.below(7)), (int64_t)r.below(8), (int64_t)(r.next() >> 1)};
+                    for (int k = 0; k < 2; ++k) { // transient read faults only
+                        if (!faulty || !r.chance(1, 2)) { a.insert(a.end(), {0, 0, 0, 0}); continue; }
+                        int kind = (int)r.pickv({FK_EINTR, FK_EAGAIN, FK_SHORT});
+                        a.insert(a.end(), {SYS_READ, 1 + (int64_t)r.below(7), kind, kind == FK_SHORT ? 1 + (int64_t)r.below(40) : 1 + (int64_t)r.below(4)});
+                    }
+                    Op o; o.name = "chk"; o.a = a; pl.ops.push_back(o);
+                }
             } else {
                 int64_t n2 = (int64_t)r.below(12);
                 names.push_back(n2);
@@ -307,7 +315,10 @@ struct CliWorld : World {
     // fresh simulated process, not by knowledge of the container format or of the KDF parameters.
     static bool container_valid(Ctx &c, const Bytes &f, const std::string &pw, const Bytes &plain)
     {
-        if (pw.size() >= 1024) return false;
+        return container_valid(c, f, std::vector<std::string>{"-p", pw}, plain);
+    }
+    static bool container_valid(Ctx &c, const Bytes &f, const std::vector<std::string> &pwargs, const Bytes &plain)
+    {
         // save the observations of the invocation being judged
         vfs_put("verify.ascon", f.data(), f.size());
         vfs_remove("verify.out");
@@ -315,7 +326,10 @@ struct CliWorld : World {
         c.chunk = 0;
         c.eintr = 0;
         std::map<std::string, uint64_t> faults = c.run->faults;
-        Result r = run_tool(c, 0, {"asconcrypt", "-d", "-p", pw, "-o", "verify.out", "verify.ascon"}, nullptr, 0, -1, 0);
+        std::vector<std::string> vargs = {"asconcrypt", "-d"};
+        vargs.insert(vargs.end(), pwargs.begin(), pwargs.end());
+        vargs.insert(vargs.end(), {"-o", "verify.out", "verify.ascon"});
+        Result r = run_tool(c, 0, vargs, nullptr, 0, -1, 0);
         c.run->faults = faults; // the verification run injects nothing and must not show up in the fault counts
         c.chunk = chunk;
         c.eintr = eintr;
@@ -341,9 +355,12 @@ struct CliWorld : World {
     }
 
     // password delivery: -p or key file written by the harness
-    static bool add_password_args(Ctx &c, std::vector<std::string> &args, const std::string &pw, bool keyfile, int ending, bool *pw_usable)
+    // *pw_plain: an ordinary password, which the tool has no reason to refuse.  Empty and very long passwords are
+    // "edge" passwords: the tool may refuse them (today: 1024 characters and more) or accept them - C19 does not say -
+    // but if it accepts one, everything else in C19 applies to that run as to any other.
+    static bool add_password_args(Ctx &c, std::vector<std::string> &args, const std::string &pw, bool keyfile, int ending, bool *pw_plain)
     {
-        *pw_usable = pw.size() < 1024;
+        *pw_plain = !pw.empty() && pw.size() < 1000;
         if (!keyfile) { args.push_back("-p"); args.push_back(pw); return true; }
         std::string content = pw;
         switch (ending % 4) {
@@ -352,7 +369,6 @@ struct CliWorld : World {
         case 2: break; // no newline
         default: content += "\nsecond line ignored\n"; break;
         }
-        if (pw.size() >= 1024) *pw_usable = false; // no end-of-line within the first 1024 bytes
         vfs_put("key.txt", (const unsigned char *)content.data(), content.size());
         c.meta.erase("key.txt");
         args.push_back("-k");
@@ -391,7 +407,9 @@ struct CliWorld : World {
         std::vector<std::string> args = {"asconcrypt"};
         if (explicit_e) args.push_back("-e");
         bool pw_ok;
+        size_t pw_from = args.size();
         add_password_args(c, args, pw, flags & 4, (int)op.arg(3), &pw_ok);
+        std::vector<std::string> pwargs(args.begin() + (long)pw_from, args.end());
         if (with_o && !use_stdio) { args.push_back("-o"); args.push_back(out); }
         int stdin_file = -1;
         if (use_stdio) { args.push_back("-"); stdin_file = vfs_find(in.c_str()); }
@@ -410,7 +428,7 @@ struct CliWorld : World {
             c.run->probe("enc.writer_crashed");
             if (out_exists) {
                 // a writer killed after its very last byte leaves a complete, valid container behind
-                bool complete = pw_ok && container_valid(c, produced, pw, plain);
+                bool complete = container_valid(c, produced, pwargs, plain);
                 Meta m;
                 m.kind = complete ? 1 : 2;
                 m.exact = produced;
@@ -419,23 +437,24 @@ struct CliWorld : World {
             }
             return;
         }
-        bool must_fail = !pw_ok || r.hard || rng_failed;
+        bool must_fail = r.hard || rng_failed;
         if (must_fail) {
-            if (r.exit_code == 0) viol(c, r.hard ? "exit_zero_after_io_error" : rng_failed ? "exit_zero_after_rng_failure" : "exit_zero_bad_password_arg", site, fault_summary(r));
+            if (r.exit_code == 0) viol(c, r.hard ? "exit_zero_after_io_error" : "exit_zero_after_rng_failure", site, fault_summary(r));
             if (out_exists) viol(c, "partial_output_left", site, fmt("output of %zu bytes left behind; %s", produced.size(), fault_summary(r).c_str()));
             if (out_exists) { Meta m; m.kind = 2; m.exact = produced; c.meta[out] = m; }
             return;
         }
         if (r.exit_code == 0) {
-            if ((!use_stdio && !out_exists) || !container_valid(c, produced, pw, plain)) {
+            if ((!use_stdio && !out_exists) || !container_valid(c, produced, pwargs, plain)) {
                 viol(c, "exit_zero_with_bad_output", site, fmt("input %zu bytes, output %s %zu bytes is not a valid encryption of the input; %s", plain.size(), out_exists || use_stdio ? "of" : "missing,", produced.size(), fault_summary(r).c_str()));
                 if (out_exists) { Meta m; m.kind = 2; m.exact = produced; c.meta[out] = m; }
                 return;
             }
-            c.run->probe("enc.ok");
+            c.run->probe(pw_ok ? "enc.ok" : "enc.ok_edge_password");
             if (!use_stdio) { Meta m; m.kind = 1; m.plain = plain; m.pw = pw; m.pwidx = op.arg(1); m.exact = produced; c.meta[out] = m; c.meta[in + "#last"] = m; c.meta[in + "#last"].pw = out + "\n" + pw; }
         } else {
-            if (!transient_fired(r)) viol(c, "fails_without_fault", site, fault_summary(r));
+            if (!pw_ok) c.run->probe("enc.edge_password_refused");
+            else if (!transient_fired(r)) viol(c, "fails_without_fault", site, fault_summary(r));
             if (out_exists) viol(c, "partial_output_left", site, fmt("exit %d but output of %zu bytes left behind", r.exit_code, produced.size()));
         }
     }
@@ -483,7 +502,7 @@ struct CliWorld : World {
         auto restore = [&]() { if (!use_stdio && !out_exists && had_out) vfs_put(out.c_str(), saved_out.data(), saved_out.size()); };
         if (r.cap_hit) { viol(c, "liveness", site, "syscall cap exceeded"); return; }
         if (r.crashed) { if (out_exists) { Meta m; m.kind = 2; m.exact = produced; c.meta[out] = m; } return; }
-        bool must_fail = !pw_ok || r.hard || !authentic || !right_pw;
+        bool must_fail = r.hard || !authentic || !right_pw;
         if (must_fail) {
             const char *why = r.hard ? "io_error" : !authentic ? "tampered_or_truncated_input" : "wrong_password";
             if (r.exit_code == 0) viol(c, fmt("exit_zero_after_%s", why).c_str(), site, fmt("input %zu bytes; %s", cur.size(), fault_summary(r).c_str()));
@@ -500,7 +519,8 @@ struct CliWorld : World {
             else c.run->probe("dec.roundtrip_ok");
             if (out_exists) { Meta m; m.kind = 0; m.exact = produced; c.meta[out] = m; }
         } else {
-            if (!transient_fired(r)) viol(c, "fails_without_fault", site, fault_summary(r));
+            // an edge password may have been accepted through one delivery path (-p) and be refused through another (-k)
+            if (pw_ok && !transient_fired(r)) viol(c, "fails_without_fault", site, fault_summary(r));
             if (out_exists) viol(c, "output_left_after_failure", site, fmt("exit %d but output of %zu bytes left behind", r.exit_code, produced.size()));
             restore();
         }
@@ -544,9 +564,29 @@ struct CliWorld : World {
             return;
         }
         if (r.exit_code == 0) {
-            bool good = ex && k.size() == 41 && k[40] == '\n';
-            for (size_t i = 0; good && i < 40; ++i) good = isalnum(k[i]) || k[i] == '%' || k[i] == '$';
-            if (!good) viol(c, "exit_zero_with_bad_output", site, fmt("key file %s, %zu bytes; %s", ex ? "malformed" : "missing", k.size(), fault_summary(r).c_str()));
+            // what a good key file looks like is the tool's business: it is good if the tool can use it (fault-free
+            // encryption of a small file with -k, whose result the tool decrypts back with the same -k)
+            bool good = ex && !k.empty();
+            if (good) {
+                static const unsigned char sample[] = "seventeen bytes!!";
+                Bytes plain(sample, sample + 17);
+                vfs_put("genprobe.in", plain.data(), plain.size());
+                vfs_remove("genprobe.enc");
+                int chunk = c.chunk, eintr = c.eintr;
+                c.chunk = 0;
+                c.eintr = 0;
+                std::map<std::string, uint64_t> faults = c.run->faults;
+                Result e = run_tool(c, 0, {"asconcrypt", "-e", "-k", kf, "-o", "genprobe.enc", "genprobe.in"}, nullptr, 0, -1, 0);
+                c.run->faults = faults;
+                c.chunk = chunk;
+                c.eintr = eintr;
+                bool ex2;
+                Bytes enc = vfs_get("genprobe.enc", &ex2);
+                good = e.exit_code == 0 && ex2 && container_valid(c, enc, std::vector<std::string>{"-k", kf}, plain);
+                vfs_remove("genprobe.in");
+                vfs_remove("genprobe.enc");
+            }
+            if (!good) viol(c, "exit_zero_with_bad_output", site, fmt("key file %s, %zu bytes, cannot be used by the tool itself; %s", ex ? "present" : "missing", k.size(), fault_summary(r).c_str()));
             else c.run->probe("gen.ok");
         } else {
             if (!transient_fired(r)) viol(c, "fails_without_fault", site, fault_summary(r));
@@ -773,31 +813,59 @@ struct CliWorld : World {
         const std::string site = "asconsum.hash";
         c.run->state(fmt("sum/%d/%d/%d/%d", alg, (int)missing, r.exit_code != 0, (int)(r.fired[FK_EIO] != 0)));
         if (r.cap_hit) { viol(c, "liveness", site, "syscall cap exceeded"); return; }
-        // expected lines for readable files
-        std::string want;
+        // What must be printed is the digest of each file (C19: "prints exactly the ... digest of each file"); how a line
+        // is laid out around it is not stated.  A printed line is attributed to the digests it contains (runs of 64 hex
+        // digits, either case): every readable file must have a line carrying its digest and its name, in argument
+        // order, and no line may carry a 64-digit value that is not the digest of a named file.
+        std::vector<std::pair<std::string, std::string>> want; // (digest, name)
         if (from_stdin) {
             bool ex;
             Bytes b = vfs_get(files[0], &ex);
-            want = digest_hex(alg, b) + "  -\n";
+            want.push_back({digest_hex(alg, b), "-"});
             c.run->probe("sum.stdin");
         } else for (auto &f : files) {
             bool ex;
             Bytes b = vfs_get(f, &ex);
-            if (ex) want += digest_hex(alg, b) + "  " + f + "\n";
+            if (ex) want.push_back({digest_hex(alg, b), f});
         }
+        auto hex_runs = [](const std::string &line) {
+            std::vector<std::string> v;
+            std::string cur;
+            for (size_t i = 0; i <= line.size(); ++i) {
+                char ch = i < line.size() ? line[i] : ' ';
+                if (isxdigit((unsigned char)ch)) cur += (char)tolower((unsigned char)ch);
+                else { if (cur.size() == 64) v.push_back(cur); cur.clear(); }
+            }
+            return v;
+        };
+        std::vector<std::string> lines;
+        { std::istringstream got(r.out); std::string line; while (std::getline(got, line)) lines.push_back(line); }
         bool io_err = r.fired[FK_EIO] != 0 || r.hard;
+        bool stray = false;
+        for (auto &line : lines)
+            for (auto &h : hex_runs(line)) {
+                bool known = false;
+                for (auto &w : want) if (w.first == h && line.find(w.second) != std::string::npos) known = true;
+                if (!known) stray = true;
+            }
+        if (stray) viol(c, "digest_output", site, fmt("alg=%d a printed line carries a 64-digit value that is not the digest of the file it names%s", alg, io_err ? " (after a read error)" : ""));
         if (!io_err) {
-            if (r.out != want) viol(c, "digest_output", site, fmt("alg=%d stdout differs from the library digests (%zu vs %zu bytes)", alg, r.out.size(), want.size()));
+            size_t li = 0;
+            bool all = true;
+            for (auto &w : want) {
+                bool found = false;
+                for (; li < lines.size() && !found; ++li) {
+                    std::vector<std::string> hs = hex_runs(lines[li]);
+                    found = std::find(hs.begin(), hs.end(), w.first) != hs.end() && lines[li].find(w.second) != std::string::npos;
+                }
+                if (!found) { all = false; break; }
+            }
+            if (!all) viol(c, "digest_output", site, fmt("alg=%d stdout lacks the digest line of a readable file (%zu lines for %zu files)", alg, lines.size(), want.size()));
             // a file that cannot be opened is an I/O error the tool must report; an exit status for the all-fine case is not stated by C19
             if (missing && r.exit_code == 0) viol(c, "exit_status", site, "exit=0 although a named file could not be opened");
-            if (r.out == want) c.run->probe("sum.ok");
+            if (all && !stray) c.run->probe("sum.ok");
         } else {
             if (r.exit_code == 0) viol(c, "exit_zero_after_io_error", site, fault_summary(r));
-            // every printed line must still be a correct line
-            std::istringstream got(r.out);
-            std::string line;
-            while (std::getline(got, line))
-                if (want.find(line + "\n") == std::string::npos) viol(c, "digest_output", site, "printed a digest line that is not the digest of the file after a read error");
         }
     }
 
@@ -844,7 +912,9 @@ struct CliWorld : World {
         std::vector<std::string> args = {"asconsum", "-c"};
         if (alg != 0) args.push_back(alg_flag(alg));
         args.push_back("sums.txt");
-        Result res = run_tool(c, 1, args, nullptr, 0, -1, 0);
+        // transient read faults only (EINTR, EAGAIN, short reads: op args 4..11): the verdicts must be those of a quiet run.
+        // What check mode owes the caller after a hard read error on a listed file is not stated by C19 and is not generated.
+        Result res = run_tool(c, 1, args, &op, 4, -1, 0);
         c.run->fold_u64((uint64_t)res.exit_code);
         c.run->fold_str(res.out);
         const std::string site = "asconsum.check";
@@ -864,7 +934,9 @@ struct CliWorld : World {
             if (!kv.second && said_ok) viol(c, "check_mode_ok_exactly_for_unmodified", site, fmt("modified file reported OK (spoil=%d)", spoil));
         }
         if (verdicts.count("no-such-file") && verdicts["no-such-file"] == "OK") viol(c, "check_mode_ok_exactly_for_unmodified", site, "missing file reported OK");
-        if ((res.exit_code != 0) != any_bad) viol(c, "exit_status", site, fmt("exit=%d but any_bad=%d (spoil=%d)", res.exit_code, (int)any_bad, spoil));
+        // a line that is not a checksum line names no file: whether it alone makes the exit status non-zero is not stated
+        if (spoil == 1) c.run->probe("chk.malformed_line_exit_unjudged");
+        else if ((res.exit_code != 0) != any_bad) viol(c, "exit_status", site, fmt("exit=%d but any_bad=%d (spoil=%d)", res.exit_code, (int)any_bad, spoil));
         else c.run->probe(any_bad ? "chk.detected" : "chk.all_ok");
     }
 
